@@ -439,7 +439,7 @@ func runParent(p *Property, tier string, seed int64) int {
 			first = first[:j]
 		}
 		if len(first) > 300 {
-			first = first[:300]
+			first = strings.ToValidUTF8(first[:300], "")
 		}
 		vioLines = append(vioLines, fmt.Sprintf("VIOLATION property=%s replay=%s sig=%s :: %s", p.ID, name, v.Sig, first))
 	}
@@ -587,9 +587,9 @@ func firstLine(s string) string {
 		s = s[:j]
 	}
 	if len(s) > 300 {
-		s = s[:300]
+		s = strings.ToValidUTF8(s[:300], "")
 	}
-	return s
+	return strings.ToValidUTF8(s, "?")
 }
 
 func tailFile(path string, lines int) string {
